@@ -6,7 +6,7 @@
         passing through xml::escape_xml_string.                                                 */
 #include "vstd_c.h"
 #include "ghost.h"
-int gh_lc_phase, g_pending, g_bad, g_lost, g_emitted, g_raw_emitted, gh_corpus_null, gh_corpus_empty;
+int gh_lc_phase, g_pending, g_bad, g_failbit, g_lost, g_emitted, g_raw_emitted, gh_corpus_null, gh_corpus_empty;
 unsigned long gh_ntus, gh_tus_written, gh_corpora_written;
 int w_write_corpus(unsigned indent, int member_of_group);
 int w_write_elf_symbol(unsigned indent, int null_sym);
@@ -15,7 +15,7 @@ int w_write_elf_symbol_reference(void);
 int w_write_elf_needed(unsigned long n, unsigned indent);
 #define POST(c) __CPROVER_assert(c, "postcondition: " #c)
 static void fresh_stream(void)
-{ g_pending = 0; g_bad = 0; g_lost = 0; g_emitted = 0; g_raw_emitted = 0; gh_lc_phase = nondet_int(); }
+{ g_pending = 0; g_bad = 0; g_failbit = 0; g_lost = 0; g_emitted = 0; g_raw_emitted = 0; gh_lc_phase = nondet_int(); }
 
 void h_write_corpus(void)
 {
